@@ -151,6 +151,9 @@ func (m *Map) Range(f func(k, v interface{}) bool) {
 	if RangeOrderChoice && len(items) > 1 && len(items) <= 4 {
 		sortKV(items)
 		items = permute(items, RangeChooser(fact(len(items))))
+	} else if len(items) > 1 {
+		// the real order comes from a Go map iteration: pin it, a controlled execution must be replayable
+		sortKV(items)
 	}
 	for _, it := range items {
 		if !f(it.k, it.v) {
